@@ -4,6 +4,21 @@ HERE = os.path.dirname(os.path.abspath(__file__))
 VERIF = os.path.dirname(HERE)
 
 CHECKS = {
+ "C02": dict(
+    text="Lean theorems (Props/C02.lean + Lemmas/Deriv.lean) over Model/Deriv.lean for EVERY angular momentum, over any commutative ring: the Cartesian loops enumerate x^k y^l z^m with row N_INDEX(l,m); left_shell_derivative returns -a_q Q-[a-e_q] + 2 Q+[a+e_q] for every component, every row it reads is in range and a clamped row only meets a zero multiplier; compute_shell_pair_derivative's nine matrices in each centre-coincidence branch, the translational sum rule A+B+C=0 in every branch and additivity at coincident centres; the calculus identity d/dA[(x-A)^k exp(-a(x-A)^2)] (Mathlib HasDerivAt). N_INDEX is re-extracted from the header every run; the model is tied to the code by assembling the real engine's shifted-shell blocks in the compiled Lean driver and comparing QA, QB and the nine matrices with the real routines for all (LA,LB) <= 4 and all five branches (agreement is bitwise on the clean tree). Search: finite differences of compute_shell_pair w.r.t. each centre (median of three steps), sum rule.",
+    note="Partial: the accuracy of the shifted-shell blocks themselves is C01's subject, and differentiation under the integral sign is taken from analysis; what is proved is that the routine combines the blocks as the derivative formula requires, for all L. Trusted: Lean kernel, translate/indexmaps.py, harness/corr_deriv.cpp (re-fetches the blocks through the public shift arguments with the documented coefficient scaling).",
+    technique="Lean 4 proof of the derivative assembly for all L + translator-fed model + bitwise differential correspondence",
+    design="3/C02"),
+ "C03": dict(
+    text="Lean theorems (Props/C03.lean) for EVERY angular momentum over any commutative ring: left_shell_second_derivative and mixed_second_derivative return the l-2/l/l+2 resp. (lA+-1, lB+-1) combinations for every component with every guard, clamp and zero-filled stand-in block only ever meeting a zero multiplier; the 45-matrix layout (jaas/jbbs from the source), the translational sum rules AC=-(AA+AB), BC=-(BB+BA), CC=AA+AB+BA+BB, irrelevance of the CC write order, and the conventions returned with a shell on the ECP centre (exactly the hypothesis C04's assembly theorem needs). Tie: indexmaps translator + correspondence of QAA, QBB, QAB and all 45 matrices for all (LA,LB) <= 3, five branches (bitwise on the clean tree). Search: finite differences of the analytic gradient, sum rules, symmetry of mixed partials.",
+    note="Partial as C02: block accuracy is C01's subject. Trusted: Lean kernel, translate/indexmaps.py, harness/corr_deriv.cpp.",
+    technique="Lean 4 proof of the second-derivative assembly for all L + translator-fed model + bitwise differential correspondence",
+    design="3/C03"),
+ "C16": dict(
+    text="Kernel-checked (decide +kernel, no axioms) over the WHOLE shipped table - 6 sets, 121 element definitions, 2144 primitives, exact decimals: every XML file is exactly the MOLPRO-convention reading of its raw source (elements, ncore, maxl, per shell lval/nexp, per primitive n/x/c; local part first at l=maxl; spin-orbit blocks dropped) and is well formed for the build. The data, the pow_n functions and the constants are regenerated from /repo on every run. Every shipped element is loaded by the real addECP_from_file and compared with the Lean loader/evaluator model (fields exact, evaluator 1e-13 at 10 radii per l) and, independently, with a Python oracle built straight from the raw files.",
+    note="Trusted: Lean kernel; translate/ecpdata.py (own MOLPRO tokenizer, xml.etree), powfns.py, constants.py; harness/corr_ecp.cpp; pugixml/stod deliver the attribute values correctly rounded; std::sort modelled as any l-ordered permutation.",
+    technique="Lean 4 decide +kernel over the complete regenerated data table + loader/evaluator model + exhaustive differential correspondence",
+    design="3/C16"),
  "C04": dict(
     text="Lean theorems (Props/C04.lean, 56 obligations) over the assembly model Model/Api.lean, generic in the block type, for EVERY number of atoms and every placement of (shell A, shell B, ECP) on atoms: H_START packs the Hessian exactly as documented (closed form, bounds, injectivity); matrix 3n+q of the first-derivative list receives exactly the derivatives of the centres on atom n; the matrix at the documented position of (a,b,p,q) receives exactly the sum over centres X on a, Y on b of d2/dX_p dY_q - all five branches, ixes/back_ixes/jxes, transposed reads. H_START and the index arrays are re-extracted from the source on every run; the model is tied to the code by assembling the real engine's per-triple blocks in the compiled Lean driver and comparing with ECPIntegrator's own matrices at 1e-13 over systems reaching every coincidence pattern in both orders. Atom numbering, list lengths, shape and symmetry are checked on the implementation directly; finite differences w.r.t. moving whole atoms are the fallback search.",
     note="Trusted: Lean kernel; translate/indexmaps.py; harness/corr_api.cpp (restates the distance-screen threshold to tell the model which (shell,ECP) pairs are kept); block-wise action of the element loops on disjoint index ranges is validated by the correspondence, not proved. The values of the per-triple blocks are inputs (C01-C03). Generated systems keep atoms >= 1 bohr apart with bit-identical centres per atom.",
